@@ -28,6 +28,7 @@ CONSTANTS N, Dir, MC,
 
 FT1 == <<2, -1, 2>>        \* ties and a negative value
 FT2 == <<0, 3, -2>>
+FT3 == <<1000, -1, -1000>>   \* 1000 / -1000 stand for an objective that is +infinity / -infinity at a point of the space
 
 \* positions 1..3 are the search space; raw candidates 4 (below), 5 (above), 6 (NaN) are outside
 Space == {1, 2, 3}
